@@ -569,7 +569,7 @@ func (c *Ctx) execGhost(g *Clause, vars map[string]Value, old *State) {
 	}
 	v := c.specEvalV(g.Expr, c.st, old, vars)
 	if v.Kind == KScalar {
-		v = Scalar(v.S, nil)
+		v = Scalar(v.S, c.x.ghostType(gd))
 	} else if v.Kind == KSlice {
 		v = Value{Kind: KSlice, T: v.T, Arr: v.Arr, Len: v.Len, IsNil: False}
 	}
